@@ -142,15 +142,20 @@ Definition noncrit_unprocessed (lvl : level) (sc : scenario) : bool :=
   | _ => match s_presp sc with PErr => false | PResp processed _ _ => negb (all_processed sc processed) end
   end.
 
-(* what the implementation decides (proved equal to the model's rejection) *)
-Definition should_fail_impl (lvl : level) (sc : scenario) : bool :=
-  negb (s_integrity_ok sc)
-  || s_nonstring_crit sc
+(* every reason to fail other than a failed validation, as the implementation
+   has them: the plugin demanded is unusable, was executed and failed / omitted
+   a verdict / left an attribute unprocessed, or nothing can process a critical
+   attribute of a signature that demands no plugin *)
+Definition plugin_or_attribute_problem (lvl : level) (sc : scenario) : bool :=
+  s_nonstring_crit sc
   || plugin_unusable sc
-  || enforced_failure lvl sc
   || plugin_exec_problem lvl sc
   || (negb (plugin_demanded sc) && nothing_processes lvl sc)
   || noncrit_unprocessed lvl sc.
+
+(* what the implementation decides (proved equal to the model's rejection) *)
+Definition should_fail_impl (lvl : level) (sc : scenario) : bool :=
+  negb (s_integrity_ok sc) || enforced_failure lvl sc || plugin_or_attribute_problem lvl sc.
 
 (* well-formed scenarios: capabilities without duplicates of the two
    verification capabilities (duplicates would make the plugin be asked, and
@@ -202,6 +207,13 @@ Definition spec_shape (lvl : level) (sc : scenario) (o : obs) : bool :=
   (* a rejection that carries the error of a result: that result is reported, enforced and failed *)
   && match o_err o with
      | EResult t => existsb (fun r => vtype_eqb (r_type r) t && action_eqb (r_action r) Enforce && r_failed r) (o_results o)
+     | _ => true
+     end
+  (* a reported result that is enforced and failed rejects *)
+  && (negb (existsb (fun r => action_eqb (r_action r) Enforce && r_failed r) (o_results o)) || negb (accepted o))
+  (* an error that is not the error of a reported result: a plugin / attribute problem *)
+  && match o_err o with
+     | EInconclusive | EOther => plugin_or_attribute_problem lvl sc
      | _ => true
      end
   (* skipped revocation is performed neither natively nor by the plugin *)
